@@ -443,6 +443,8 @@ class modict(odict):
         super(modict, self).__init__()  # must do this first
         self.update(*pa, **kwa)
 
+    def __reduce__(self):
+        return (self.__class__, (self.allitems(), ))
     def __getitem__(self, key):
         return super(modict, self).__getitem__(key)[-1] #newest
     def __setitem__(self, key, value):
